@@ -71,6 +71,32 @@ theorem decode_in_restricted (P : Problem) (f : Fixed) (x : List Int) (k : Nat)
     (h : decodePure P f x = some k) (hk : k < P.rows.length) : P.rows.getD k [] ∈ restrictRows P f := by
   exact decode_in_restricted' P f x k h hk
 
+/-! #### Monotonicity and composition of restrictions -/
+
+/-- **Monotone**: fixing more variables can only shrink the design space – every design of the more
+    restricted problem is a design of the less restricted one. -/
+theorem restrict_mono (P : Problem) (f g : Fixed) (hsub : ∀ p ∈ f, p ∈ g) (r : Row)
+    (h : r ∈ restrictRows P g) : r ∈ restrictRows P f := by
+  rw [restrict_exact] at h ⊢
+  refine ⟨h.1, ?_⟩
+  have hg := h.2
+  unfold consistent at hg ⊢
+  rw [List.all_eq_true] at hg ⊢
+  intro p hp
+  exact hg p (hsub p hp)
+
+/-- Fixing commutes: restricting by `f` and then (on the result) by `g` is restricting by both. -/
+theorem restrict_append (P : Problem) (f g : Fixed) (r : Row) :
+    r ∈ restrictRows P (f ++ g) ↔ r ∈ restrictRows P f ∧ r ∈ restrictRows P g := by
+  simp only [restrict_exact, consistent, List.all_append, Bool.and_eq_true]
+  constructor
+  · rintro ⟨h1, h2, h3⟩; exact ⟨⟨h1, h2⟩, ⟨h1, h3⟩⟩
+  · rintro ⟨⟨h1, h2⟩, ⟨_, h3⟩⟩; exact ⟨h1, h2, h3⟩
+
+/-- The restricted design count never exceeds the original one. -/
+theorem restrict_count_le (P : Problem) (f : Fixed) : (restrictRows P f).length ≤ P.rows.length :=
+  (restrict_sublist P f).length_le
+
 /-! Non-vacuity -/
 def exP : Problem :=
   { kinds := [.sel, .dv], nOpts := [2, 2], rows := [[some 0, none], [some 1, some 0], [some 1, some 1]],
